@@ -774,6 +774,21 @@ class SVEval:
             return [([], ("rep", ("opaque", rt), sep if sep is not None else "?"), False, env)]
         if m == "collect":
             return self.eval(recv, o)
+        if m in ("concat", "join") and recv.get("k") in ("array", "ref", "paren"):
+            # `["z.array(", inner.as_str(), ")"].concat()`: the pieces in order (with the separator between them for join)
+            r_ = recv
+            while r_.get("k") in ("ref", "paren"):
+                r_ = r_["expr"]
+            if r_.get("k") == "array" and r_.get("elems") is not None:
+                sep_ = lit_str(e["args"][0]) if (m == "join" and e["args"]) else ""
+                if sep_ is not None:
+                    parts = []
+                    for i_, el in enumerate(r_["elems"]):
+                        if i_ and sep_:
+                            parts.append(lit(sep_))
+                        v_ = self.first(el, o)
+                        parts.append(v_ if v_ is not None else ("opaque", expr_text(el)))
+                    return [([], cat(parts) if parts else lit(""), False, env)]
         if m == "map" and e["args"] and e["args"][0].get("k") == "closure":
             clo = e["args"][0]
             src = self.first(recv, o)
@@ -926,6 +941,8 @@ class SVEval:
                 if paths:
                     return [(["%s: %s" % (last, c) for c in cs], v, False, env) for (cs, v) in paths][:MAX_PATHS]
             return [([], ("call", last, args), False, env)]     # kept symbolic under the name `self.method(..)` would have
+        if f in ("String::with_capacity", "std::string::String::with_capacity"):
+            return [([], lit(""), False, env)]
         if f in ("String::from", "Some", "Ok", "Box::new", "String::new") :
             if not args:
                 return [([], lit(""), False, env)]
